@@ -342,11 +342,14 @@ pub struct OutCase {
 const BASE_FLAGS: u8 = 0;
 
 fn msg_of_len(kind: MsgKind, len: usize) -> Option<Msg> {
-    let base = Msg::Ok { kind, flags: BASE_FLAGS, pad: 0 }.encoded_len()?;
+    // ReplyShapes with a 200-byte serialize_bytes payload (an encoder that over-estimates such a
+    // value asks for room the frame does not need)
+    let flags = if kind == MsgKind::ReplyShapes { 15 } else { BASE_FLAGS };
+    let base = Msg::Ok { kind, flags, pad: 0 }.encoded_len()?;
     if len < base {
         return None;
     }
-    Some(Msg::Ok { kind, flags: BASE_FLAGS, pad: len - base })
+    Some(Msg::Ok { kind, flags, pad: len - base })
 }
 
 fn op_for(kind: MsgKind, enqueue: bool) -> SendOp {
